@@ -333,4 +333,8 @@ def norm_cond(c):
         if len(subj) > 3:
             t = t + ("#%d" % subj[3],)
         return (show(t), "ok" if val in ("Some", "Ok") else "fails")
-    return (show(norm(subj)), "%s %s" % (rel, val))
+    t = norm(subj)
+    if rel == "val" and isinstance(t, tuple) and t and t[0] == "Ne" and str(val) in ("0", "not:0"):
+        # `a != b` is false  <=>  `a == b` is true
+        return (show(("Eq",) + tuple(t[1:])), "val %s" % ("not:0" if str(val) == "0" else "0"))
+    return (show(t), "%s %s" % (rel, val))
